@@ -97,13 +97,29 @@ def big_frame(f, *a):
     return _BIG_FRAME[0](f, a)
 
 
+TEXTX_CRASH = 'TEXTX-EXCEPTION '
+
+
+def _origin(e):
+    """marks an unexpected exception whose innermost frame is textX (or Arpeggio driven by it),
+    not the harness: the code under test crashed on something the check considers valid"""
+    try:
+        frames = traceback.extract_tb(e.__traceback__)
+        fn = frames[-1].filename.replace(os.sep, '/') if frames else ''
+        if ('/textx/' in fn or '/arpeggio/' in fn) and '/verifx/' not in fn:
+            return TEXTX_CRASH
+    except Exception:  # noqa
+        pass
+    return ''
+
+
 def _worker(args):
     fn, item = args
     t0 = time.time()
     try:
         return ('ok', big_frame(fn, item), time.time() - t0)
     except BaseException as e:  # noqa
-        return ('err', '%s: %s\n%s' % (type(e).__name__, e, traceback.format_exc()),
+        return ('err', '%s%s: %s\n%s' % (_origin(e), type(e).__name__, e, traceback.format_exc()),
                 time.time() - t0)
 
 
@@ -222,6 +238,15 @@ class Check:
         return path
 
     def harness_error(self, text):
+        if text.startswith(TEXTX_CRASH):
+            # textX itself raised, unexpectedly, while being exercised on inputs the check holds valid:
+            # that is an outcome of the code under test, not a failure of the harness
+            if not any('crash' in str(v[0]) for v in self.violations):
+                lines = [l for l in text.splitlines() if l.strip()]
+                self.violation('textX crashed while the check exercised it: %s | %s' % (
+                    lines[0][len(TEXTX_CRASH):][:160], lines[-2].strip()[:120] if len(lines) > 2 else ''),
+                    {'crash': text[:3000]})
+            return
         self.cov['harness_errors'].append(text[:2000])
 
     # --- end of run
